@@ -69,7 +69,7 @@ func Apply(doc, patch string, o Options) (r Res) {
 	}
 	jo := o.JP()
 	r.Panic = ev.Safe(func() { r.Out, r.Err = p.ApplyIndentWithOptions([]byte(doc), o.Indent, jo) })
-	if r.Panic == nil && *jo != *o.JP() {
+	if r.Panic == nil && !SameOptions(jo, o.JP()) {
 		// the caller's options value is an input like any other (C09): every check reports a write to it
 		r.Panic = fmt.Errorf("Apply modified the ApplyOptions value it was given: now %+v, was %+v", *jo, *o.JP())
 	}
@@ -225,4 +225,11 @@ func BigIndex(path string) bool {
 		}
 	}
 	return false
+}
+
+// SameOptions compares the exported fields of two ApplyOptions values (field by
+// field, so that the harness still builds against a tree that adds fields).
+func SameOptions(a, b *jp.ApplyOptions) bool {
+	return a.SupportNegativeIndices == b.SupportNegativeIndices && a.AccumulatedCopySizeLimit == b.AccumulatedCopySizeLimit &&
+		a.AllowMissingPathOnRemove == b.AllowMissingPathOnRemove && a.EnsurePathExistsOnAdd == b.EnsurePathExistsOnAdd && a.EscapeHTML == b.EscapeHTML
 }
